@@ -47,7 +47,8 @@ FTokens == {<<"INF">>, <<"-INF">>, <<"NaN">>, <<"true">>, <<"false">>, <<"+INF">
             \* explicit plus signs and the capital exponent marker (in every tier)
             <<"+", "5">>, <<"+", "0">>, <<"1", "e", "+", "5">>, <<"+", "1", ".", "5">>, <<"1", "E", "5">>, <<"1", "E", "+", "1">>, <<"-", "1", "E", "-", "1">>,
             <<"+", "1", ".", "5", "e", "+", "1">>, <<"5", ".", "0", "E", "-", "1">>}
-FTexts == UNION {[1..n -> FSym] : n \in 1..(MaxLen + 1)} \cup FTokens
+\* (length 5 in both tiers; the thorough tier has the larger alphabet)
+FTexts == UNION {[1..n -> FSym] : n \in 1..5} \cup FTokens
 IsD(c) == c \in {"0", "1", "5"}
 RECURSIVE DPrefix(_)
 DPrefix(s) == IF s # <<>> /\ IsD(Head(s)) THEN 1 + DPrefix(Tail(s)) ELSE 0
